@@ -1,6 +1,10 @@
 import Afkak.ClientNet
 import Afkak.Monitor.C20
 import AfkakProofs.Client.Net
+import AfkakProofs.Client.B_BootClose
+import AfkakProofs.Client.B_ComposeClose
+import AfkakProofs.Client.B_MonC20
+import AfkakProofs.Client.B_CloseAll
 import AfkakProps.Open.C20
 /-!
 # C20 — closing the client fails everything pending and releases every connection
@@ -101,6 +105,62 @@ theorem C20_close_awaits_bootstrap_connections_partial (cfg : Cfg) (st : St) (en
   simp only [step, hc, Bool.false_eq_true, if_false]
   exact runActs_closing_nbr cfg fuel _ _ _ rfl (fun x hx => hb x hx) (by simp)
 
+/-- `close()` aborts every bootstrap in progress: after the `close` step of an open client — in ANY reachable
+    state — no broker-unaware request is waiting for a bootstrap connection or for the reply on one, provided the
+    step did not exhaust the interpreter's fuel (the statement without that proviso is false of the fuel-bounded
+    interpreter: with more than `fuel` broker clients to close the stack is cut before `cancelBoots` runs; it stays
+    an open statement).  Proof: bootstrap attempts are numbered uniquely in every reachable state (`BootInv`), while
+    closing no action creates a bootstrap state, and `cancelBoots → cancelU → bootNext/bootResult → unawareDone`
+    takes each instance out of it (`AfkakProofs/Client/B_BootClose.lean`). -/
+theorem C20_close_leaves_no_bootstrap_pending_partial (cfg : Cfg) (evs : List (Env × Ev)) (env : Env) (o : Nat) :
+    let st := evs.foldl (fun s e => (step cfg s e.1 e.2).1) ({} : St)
+    st.closing = false → Ob.badOp "fuel" ∉ (step cfg st env (.close o)).2 →
+    ∀ x ∈ (step cfg st env (.close o)).1.unawares, ∀ j rest, x.st ≠ .bootConn j rest ∧ x.st ≠ .bootReq j rest := by
+  intro st hc hf x hx j rest
+  have hb := close_no_boot cfg st env o (run_bootInv cfg evs {} BootInv.init) hc hf x hx
+  constructor <;> (intro h; rw [h] at hb; cases hb)
+
+/-- `C20_no_connect_no_write_after_close` WITHOUT the `NoBootConn` hypothesis, for reachable states: take any run
+    of the client from its initial state, call `close()` (the step not exhausting the fuel), and let ANY events
+    follow (late replies, connection events of bootstrap attempts that were pending, timers, new operations,
+    another close): no later step connects, creates a broker client, writes a bootstrap request or hands a request
+    to a broker client, and the client stays closed. -/
+theorem C20_no_connect_no_write_after_close_reachable (cfg : Cfg) (evs : List (Env × Ev)) (env : Env) (o : Nat)
+    (post : List (Env × Ev)) (e : Env × Ev) :
+    let st := evs.foldl (fun s e => (step cfg s e.1 e.2).1) ({} : St)
+    st.closing = false → Ob.badOp "fuel" ∉ (step cfg st env (.close o)).2 →
+    let st' := post.foldl (fun s x => (step cfg s x.1 x.2).1) (step cfg st env (.close o)).1
+    st'.closing = true ∧ (step cfg st' e.1 e.2).1.closing = true ∧ ∀ ob ∈ (step cfg st' e.1 e.2).2, ob.connects = false := by
+  intro st hc hf
+  have hcl : (step cfg st env (.close o)).1.closing = true := by
+    simp only [step, hc, Bool.false_eq_true, if_false]
+    exact runActs_closing_state cfg fuel _ _ _ rfl
+  have hnb : NoBootConn (step cfg st env (.close o)).1 := by
+    intro x hx j rest
+    exact (C20_close_leaves_no_bootstrap_pending_partial cfg evs env o hc hf x hx j rest).1
+  have key : ∀ (l : List (Env × Ev)) (s : St), s.closing = true → NoBootConn s →
+      (l.foldl (fun s x => (step cfg s x.1 x.2).1) s).closing = true ∧
+      NoBootConn (l.foldl (fun s x => (step cfg s x.1 x.2).1) s) := by
+    intro l
+    induction l with
+    | nil => intro s h1 h2; exact ⟨h1, h2⟩
+    | cons x l ih =>
+      intro s h1 h2
+      exact ih _ (step_closing cfg s x.1 x.2 h1 h2).1 (step_closing_nbc cfg s x.1 x.2 h1 h2)
+  intro st'
+  obtain ⟨h1, h2⟩ := key post _ hcl hnb
+  exact ⟨h1, (step_closing cfg st' e.1 e.2 h1 h2).1, (step_closing cfg st' e.1 e.2 h1 h2).2⟩
+
+/-! Non-vacuity of the two theorems above: a fresh client is bootstrapping (connection accepted, metadata request
+    written) when it is closed; the step does not run out of fuel and the bootstrap is aborted in it. -/
+example :
+    let cfg : Cfg := { timeout := 10, disconnectOnTimeout := false, bootHosts := [("boot", 9092)] }
+    let st := ([({ shuffles := [[], [0]] }, Ev.load 0 []), ({}, Ev.bootOk 0)] : List (Env × Ev)).foldl
+      (fun s e => (step cfg s e.1 e.2).1) ({} : St)
+    st.closing = false ∧ Ob.badOp "fuel" ∉ (step cfg st {} (.close 1)).2 ∧
+    st.unawares.map (·.st) = [.bootReq 0 []] ∧ (step cfg st {} (.close 1)).1.unawares.map (·.st) = [.done] := by
+  decide +kernel
+
 /-! Non-vacuity: a client with one connected broker and a request in flight is closed; the pending load
     fails in the same step, the broker client is closed, the close Deferred fires only when the broker
     client has gone, and a later load fails at once without any connection attempt. -/
@@ -126,6 +186,149 @@ example :
   subst hx
   simp
 
+/-- **Part of the monitor's soundness for the model** (`C20_model_traces_satisfy_monitor` is the whole): every
+    trace of the client model from the initial state - every sequence of API calls, completions, connection events
+    and clock advances with every environment answer, no step exhausting the interpreter's fuel - satisfies the rules
+    of `Afkak.Monitor.C20` (the predicate evaluated on the real client's traces) that say "after the first `close()`
+    no request is handed to a broker client, no broker client is created, no bootstrap connection is attempted and no
+    bootstrap request is written" (`connFails`, part of `ok`).  By simulation: the monitor's `closed` flag is set
+    exactly when the model has executed a `close` event, and from then on the model state is closing and awaits no
+    bootstrap connection (`AfkakProofs/Client/B_MonC20.lean`).  Not covered (open): every pending operation fails in
+    the close step, later operations fail at once, the close Deferred fires once and not before the last broker client
+    has gone, metadata stays cleared. -/
+theorem C20_model_traces_satisfy_monitor_partial (cfg : Cfg) (evs : List (Env × Ev)) (hnf : NoFuel cfg {} evs) :
+    (Afkak.Monitor.C20.run (traceOf cfg {} evs)).connFails = [] :=
+  model_no_connFails cfg evs hnf
+
+/-! Non-vacuity: on a run that closes a bootstrapping client and then gets a late bootstrap event and a new load, the
+    monitor's `closed` flag is set and `connFails` stays empty. -/
+example :
+    let cfg : Cfg := { timeout := 10, disconnectOnTimeout := false, bootHosts := [("boot", 9092)] }
+    let evs : List (Env × Ev) := [({ shuffles := [[], [0]] }, .load 0 []), ({}, .close 1), ({}, .bootOk 0), ({}, .load 2 [])]
+    NoFuel cfg {} evs ∧ (Afkak.Monitor.C20.run (traceOf cfg {} evs)).closed = true ∧
+    (Afkak.Monitor.C20.run (traceOf cfg {} evs)).connFails = [] := by
+  refine ⟨?_, by decide +kernel, by decide +kernel⟩
+  simp only [NoFuel, and_true]
+  refine ⟨by decide +kernel, by decide +kernel, by decide +kernel, by decide +kernel⟩
+
+/-- **"All broker connections are closed": `close()` tells EVERY broker client to close.**  For every run of the client
+    from its initial state (no step exhausting the fuel) and a `close()` in the state reached: when the close step
+    ends, every broker-client instance ever created - those still in `self.clients`, those a metadata refresh popped
+    earlier, those being closed already - has been told to close (`closed`: the observation `bcClose b` was emitted
+    for it).  The model side of the monitor rule "the close Deferred fired although a broker client was never told
+    to close".  Proof (`AfkakProofs/Client/B_BcInv.lean`, `B_CloseAll.lean`): in every reachable state the keys of
+    `self.clients` are exactly the node ids of the instances not yet popped, without duplicates (`BcInv`, through
+    `_update_brokers`' pops and `_get_brokerclient`'s creations), so `close()`'s loop over `self.clients` reaches each
+    of them; and an instance that has left `self.clients` has been told to close or its `closeBc` is still on the
+    action stack (`Pend`), which is empty when a step ends without fuel exhaustion. -/
+theorem C20_close_closes_every_broker_client (cfg : Cfg) (evs : List (Env × Ev)) (hnf : NoFuel cfg {} evs) (env : Env) (o : Nat)
+    (hf : Ob.badOp "fuel" ∉ (step cfg (evs.foldl (fun s e => (step cfg s e.1 e.2).1) ({} : St)) env (.close o)).2) :
+    ∀ i ∈ (step cfg (evs.foldl (fun s e => (step cfg s e.1 e.2).1) ({} : St)) env (.close o)).1.bcs, i.closed = true :=
+  close_closes_all cfg evs hnf env o hf
+
+/-! Non-vacuity: two broker clients (one request each), a full refresh that drops broker 2, then `close()`: both
+    instances end up told to close - the second by the refresh, the first by `close()`. -/
+example :
+    let cfg : Cfg := { timeout := 10, disconnectOnTimeout := false, bootHosts := [("boot", 9092)] }
+    let evs : List (Env × Ev) :=
+      [({ shuffles := [[], [0]] }, .load 0 []), ({}, .bootOk 0),
+       ({}, .bootReply 0 (.metadata [⟨1, "h1", 9092⟩, ⟨2, "h2", 9092⟩] [⟨"t", 0, [⟨0, 0, 1⟩, ⟨0, 1, 2⟩]⟩])),
+       ({}, .send 1 [("t", 0), ("t", 1)] none true true),
+       ({ shuffles := [[0, 1]] }, .load 2 []),
+       ({}, .fire 2 (.ok (.metadata [⟨1, "h1", 9092⟩] [⟨"t", 0, [⟨0, 0, 1⟩, ⟨0, 1, 1⟩]⟩])))]
+    let st := evs.foldl (fun s e => (step cfg s e.1 e.2).1) ({} : St)
+    NoFuel cfg {} evs ∧ st.bcs.map (fun i => (i.inClients, i.closed)) = [(true, false), (false, true)] ∧
+    Ob.badOp "fuel" ∉ (step cfg st {} (.close 3)).2 ∧
+    (step cfg st {} (.close 3)).1.bcs.map (·.closed) = [true, true] := by
+  refine ⟨?_, by decide +kernel, by decide +kernel, by decide +kernel⟩
+  simp only [NoFuel, and_true]
+  refine ⟨by decide +kernel, by decide +kernel, by decide +kernel, by decide +kernel, by decide +kernel, by decide +kernel⟩
+
+/-! ## C20 end to end: the client model composed with one broker-client model per broker (`Afkak/ClientCompose.lean`) -/
+
+/-- Once the client component of the COMPOSED model (client model × one broker-client model per broker client) is
+    closed and awaits no bootstrap connection, every composed step - whatever network-level event: a connection
+    attempt of a broker client succeeding or failing, a connection going away, a late reply, the clock, a new API
+    call, another close - keeps it so; the client layer emits nothing that connects, creates a broker client,
+    writes a bootstrap request or hands a request to a broker client; and every broker client that is closed stays
+    closed and does nothing that connects, writes or arms a timer (`OutOk b`: its observations in that step are
+    `quietOb`, no `connect b …`) - the broker-client theorem `C10_closed_quiet` under the client's close. -/
+theorem C20_composed_closed_quiet (cfg : Afkak.ClientCompose.Cfg) (s : Afkak.ClientCompose.St) (e : Afkak.ClientCompose.Ev)
+    (hc : Afkak.ClientCompose.Closed s.cl) (hi : Afkak.ClientCompose.AllSInv s) :
+    Afkak.ClientCompose.Closed (Afkak.ClientCompose.step cfg s e).1.cl ∧
+    Afkak.ClientCompose.AllSInv (Afkak.ClientCompose.step cfg s e).1 ∧
+    (∀ o, Afkak.ClientCompose.Ob.cl o ∈ (Afkak.ClientCompose.step cfg s e).2 → o.connects = false) ∧
+    (∀ b x, s.bcs[b]? = some x → x.closed = true →
+      (∃ x', (Afkak.ClientCompose.step cfg s e).1.bcs[b]? = some x' ∧ x'.closed = true) ∧
+      Afkak.ClientCompose.OutOk b (Afkak.ClientCompose.step cfg s e).2) := by
+  obtain ⟨h1, h2⟩ := Afkak.ClientCompose.step_gen cfg (Afkak.ClientCompose.closedInv cfg) s e hc
+  refine ⟨h1, Afkak.ClientCompose.step_allSInv cfg s e hi, h2, ?_⟩
+  intro b x hx hcl
+  obtain ⟨k1, k2⟩ := Afkak.ClientCompose.step_keeps cfg s b e ⟨hi, x, hx, hcl⟩
+  exact ⟨k1.closed, k2⟩
+
+/-- `close()` of the client in the composed model, from ANY reachable composed state (any network history), with
+    ANY events afterwards: the client component is closed for good, the client layer never again emits anything
+    that connects / creates a broker client / issues a request, and every broker client that is closed when the
+    close step ends (by this close or by an earlier metadata refresh) never again connects, writes or arms a timer.
+    (The close step must not exhaust the interpreter's fuel.  That EVERY broker client is closed when the close
+    step ends is the open statement `C20_composed_close_closes_every_broker_client`; it is checked on every real
+    full-stack run the composed model is driven with.) -/
+theorem C20_composed_no_connect_no_write_after_close (cfg : Afkak.ClientCompose.Cfg) (evs : List Afkak.ClientCompose.Ev)
+    (env : Env) (o : Nat) (post : List Afkak.ClientCompose.Ev) (e : Afkak.ClientCompose.Ev) :
+    let s := Afkak.ClientCompose.run cfg {} evs
+    s.cl.closing = false → Ob.badOp "fuel" ∉ (step cfg.cl s.cl env (.close o)).2 →
+    let s1 := (Afkak.ClientCompose.step cfg s (.api env (.close o))).1
+    let s' := Afkak.ClientCompose.run cfg s1 post
+    s'.cl.closing = true ∧ (Afkak.ClientCompose.step cfg s' e).1.cl.closing = true ∧
+    (∀ ob, Afkak.ClientCompose.Ob.cl ob ∈ (Afkak.ClientCompose.step cfg s' e).2 → ob.connects = false) ∧
+    (∀ b x, s1.bcs[b]? = some x → x.closed = true → Afkak.ClientCompose.OutOk b (Afkak.ClientCompose.step cfg s' e).2) := by
+  intro s hc hf s1 s'
+  have hbi : BootInv s.cl := Afkak.ClientCompose.run_gen cfg (Afkak.ClientCompose.bootInvC cfg) evs {} BootInv.init
+  have hsi : Afkak.ClientCompose.AllSInv s := Afkak.ClientCompose.run_allSInv cfg evs {} Afkak.ClientCompose.allSInv_init
+  have hcl1 : Afkak.ClientCompose.Closed s1.cl := Afkak.ClientCompose.close_establishes cfg s env o hbi hc hf
+  have hsi1 : Afkak.ClientCompose.AllSInv s1 := Afkak.ClientCompose.step_allSInv cfg s _ hsi
+  have key : ∀ (l : List Afkak.ClientCompose.Ev) (t : Afkak.ClientCompose.St), Afkak.ClientCompose.Closed t.cl →
+      Afkak.ClientCompose.AllSInv t →
+      Afkak.ClientCompose.Closed (Afkak.ClientCompose.run cfg t l).cl ∧ Afkak.ClientCompose.AllSInv (Afkak.ClientCompose.run cfg t l) ∧
+      ∀ (b : Nat) (x : Afkak.BrokerClient.St), t.bcs[b]? = some x → x.closed = true →
+        ∃ x' : Afkak.BrokerClient.St, (Afkak.ClientCompose.run cfg t l).bcs[b]? = some x' ∧ x'.closed = true := by
+    intro l
+    induction l with
+    | nil => intro t h1 h2; exact ⟨h1, h2, fun b x hx hcx => ⟨x, hx, hcx⟩⟩
+    | cons a l ih =>
+      intro t h1 h2
+      obtain ⟨g1, g2, _, g4⟩ := C20_composed_closed_quiet cfg t a h1 h2
+      obtain ⟨i1, i2, i3⟩ := ih _ g1 g2
+      refine ⟨i1, i2, ?_⟩
+      intro b x hx hcx
+      obtain ⟨⟨x', hx', hcx'⟩, _⟩ := g4 b x hx hcx
+      exact i3 b x' hx' hcx'
+  obtain ⟨k1, k2, k3⟩ := key post s1 hcl1 hsi1
+  obtain ⟨g1, _, g3, g4⟩ := C20_composed_closed_quiet cfg s' e k1 k2
+  refine ⟨k1.closing, g1.closing, g3, ?_⟩
+  intro b x hx hcx
+  obtain ⟨x', hx', hcx'⟩ := k3 b x hx hcx
+  exact (g4 b x' hx' hcx').2
+
+/-! Non-vacuity: a client with a connected broker client and a request in flight is closed; afterwards the broker
+    client is closed, its connection's loss fires the client's close Deferred, a late reply does nothing. -/
+example :
+    let cfg : Afkak.ClientCompose.Cfg := { cl := { timeout := 10, disconnectOnTimeout := false, bootHosts := [("boot", 9092)] }, bc := ⟨fun _ => 1/2⟩ }
+    let evs : List Afkak.ClientCompose.Ev :=
+      [.api { shuffles := [[], [0]] } (.load 0 []), .api {} (.bootOk 0),
+       .api {} (.bootReply 0 (.metadata [⟨1, "h1", 9092⟩] [⟨"t", 0, [⟨0, 0, 1⟩]⟩])),
+       .api {} (.send 1 [("t", 0)] none true true), .connOk 0 []]
+    let s := Afkak.ClientCompose.run cfg {} evs
+    let r1 := Afkak.ClientCompose.step cfg s (.api {} (.close 2))
+    let r2 := Afkak.ClientCompose.step cfg r1.1 (.reply 0 0 (.items [(("t", 0), 0, 7)]) {})
+    let r3 := Afkak.ClientCompose.step cfg r2.1 (.lost 0 {})
+    s.cl.closing = false ∧ Ob.badOp "fuel" ∉ (step cfg.cl s.cl {} (.close 2)).2 ∧
+    r1.2 = [.cl (.bcClose 0), .cl (.fired 0 (some .clientClosed)), .cl (.cancelTimer (.mrtb 0)),
+            .cl (.result 1 (.failedPayloads [] [(0, .clientClosed)])), .bc 0 (.lose 0), .bc 0 (.fire 0 0 (.err .clientError))] ∧
+    (r1.1.bcs.map (·.closed)) = [true] ∧ r2.2 = [] ∧ r3.2 = [.bc 0 .down, .cl (.closeFired 2)] := by
+  refine ⟨by decide +kernel, by decide +kernel, by decide +kernel, by decide +kernel, by decide +kernel, by decide +kernel⟩
+
 end Afkak.Props.C20
 
 /- OBLIGATIONS
@@ -137,9 +340,16 @@ C20_new_ops_fail
 C20_srtc_after_close_fails
 C20_close_awaits_bootstrap_connections_counterexample
 C20_close_awaits_bootstrap_connections_partial
+C20_close_leaves_no_bootstrap_pending_partial
+C20_no_connect_no_write_after_close_reachable
+C20_model_traces_satisfy_monitor_partial
+C20_close_closes_every_broker_client
+C20_composed_closed_quiet
+C20_composed_no_connect_no_write_after_close
 -/
 /- OPEN_STATEMENTS
 C20_model_traces_satisfy_monitor
 C20_close_leaves_no_bootstrap_pending
 C20_close_awaits_bootstrap_connections
+C20_composed_close_closes_every_broker_client
 -/
